@@ -39,7 +39,7 @@ def compile_pat(pattern: str):
 
 
 def _bind(env, key, val):
-    if key.endswith("__") or key in ("_",):
+    if key.endswith("__") or key in ("_", "$_", "$$_"):
         return True
     if key in env:
         return env[key] == val
